@@ -206,6 +206,49 @@ def published_inside(m0: int, m1: int, m2: int, m3: int, m4: int, m5: int, style
         return orc.result()
 
 
+def published_after_update(a0: bool, a1: bool, a2: bool, a3: bool, a4: bool, a5: bool,
+                           b0: bool, b1: bool, b2: bool, b3: bool, b4: bool, b5: bool) -> str:
+    """
+    The associated location state is UPDATED in place (update_from_sdc_location twice on the same state: first location A, then
+    location B, each with any combination of present / absent elements): the published scope must be the one of B - it parses
+    back to B, is inside B, and is NOT inside a location that specifies an element only A had.
+    post: __return__ == 'ok'
+    """
+    pa = [bool(x) for x in (a0, a1, a2, a3, a4, a5)]
+    pb = [bool(x) for x in (b0, b1, b2, b3, b4, b5)]
+    with untraced():
+        orc = Oracle()
+        try:
+            if not any(pa) or not any(pb):
+                return 'ok'
+            loc_a = SdcLocation(**{el: PLAIN[i] for i, el in enumerate(ELEMENTS) if pa[i]})
+            loc_b = SdcLocation(**{el: NASTY[i] for i, el in enumerate(ELEMENTS) if pb[i]})
+            descr = LocationContextDescriptorContainer('loc_descr', 'sys_context')
+            state = LocationContextStateContainer(descr)
+            state.Handle = 'loc_state'
+            state.update_from_sdc_location(loc_a)
+            state.update_from_sdc_location(loc_b)
+            scopes = mk_scopes(StubMdib([state]))
+            loc_scopes = [sc for sc in scopes.text if sc.startswith('sdc.ctxt.loc:')]
+            orc.check(len(loc_scopes) == 1, 'mk_scopes-published-no-location-scope')
+            if loc_scopes:
+                back = SdcLocation.from_scope_string(loc_scopes[0])
+                for i, el in enumerate(ELEMENTS):
+                    orc.check(norm(getattr(back, el)) == norm(getattr(loc_b, el)), 'published-scope-keeps-element-of-previous-location')
+                r = _inside(orc, loc_b, scopes, 'own')
+                if r is not None:
+                    orc.check(r, 'published-location-scope-not-inside-own-location')
+                for i, el in enumerate(ELEMENTS):
+                    if pa[i] and not pb[i]:
+                        stale = SdcLocation(**{el: PLAIN[i]})
+                        r = _inside(orc, stale, scopes, 'stale')
+                        if r is not None:
+                            orc.check(not r, 'published-scope-inside-location-of-previous-element')
+        except Exception as exc:  # noqa: BLE001
+            return exc_result(orc, exc, 'published-after-update')
+        return orc.result()
+
+
 # (provider value, consumer value) for the differing element; provider None = element absent at the provider
 DIFF = (('ab', 'abc'), ('ab', 'a'), ('ab', 'xy'), (None, 'ab'), ('ab', 'AB'), ('a b', 'a+b'), ('a/b', 'a%2Fb'))
 
